@@ -4,5 +4,6 @@ d=/verif/seeded/$1; mkdir -p $d; cp $2/patch.diff $d/; cp -r $2/demo $d/; cp $2/
 python3 - "$@" <<'PY'
 import json,sys
 name,out,prop,needs,ran,caught=sys.argv[1:7]
-json.dump({"property":prop,"origin":"sub-agent given only the property text and its own worktree","needs_to_manifest":needs,"confirmed":ran,"caught_by":caught},open(f"/verif/seeded/{name}/meta.json","w"),indent=1)
+check=sys.argv[7] if len(sys.argv)>7 else None
+json.dump({"property":prop,"origin":"sub-agent given only the property text and its own worktree","needs_to_manifest":needs,"confirmed":ran,"caught_by":caught,**({"check":check} if check else {})},open(f"/verif/seeded/{name}/meta.json","w"),indent=1)
 PY
